@@ -26,6 +26,8 @@ def _ground_base(e, aliases):
         return e.id in aliases
     if isinstance(e, ast.Call) and (dotted(e.func) or '') in ('np.logical_not', 'np.array', 'np.copy') and e.args:
         return _ground_base(e.args[0], aliases)
+    if isinstance(e, ast.UnaryOp) and isinstance(e.op, (ast.Invert, ast.Not)):
+        return _ground_base(e.operand, aliases)         # ~flags: elementwise not
     return False
 
 
